@@ -2,6 +2,7 @@ package nodeutil
 
 import (
 	"bytes"
+	"unicode/utf8"
 
 	"github.com/freeconf/yang/meta"
 	"github.com/freeconf/yang/node"
@@ -30,6 +31,7 @@ const c04Yang = `module m { namespace "urn:m"; prefix m; revision 2020-01-01;
 	list l { key "k"; leaf k { type uint8; } leaf v { type string; }
 		list in { key "p q"; leaf p { type string; } leaf q { type uint8; } leaf w { type string; } } }
 	leaf top { type string; }
+	choice tch { case ta { leaf ta1 { type string; } } case tb { container tb1 { leaf y { type string; } } } leaf tsh { type string; } }
 	container wide {
 		leaf i8 { type int8; } leaf i16 { type int16; } leaf i32 { type int32; } leaf i64 { type int64; }
 		leaf u16 { type uint16; } leaf u32 { type uint32; } leaf u64 { type uint64; }
@@ -112,6 +114,14 @@ func c04Source(st *memStore, aspect int) {
 			c.leaves["a1"] = val.String("av")
 		case 2:
 			c.ensureKid(st, "b1").leaves["y"] = val.String("yv")
+		}
+		switch vpChoose(4) { // a choice directly at module level: its nodes are top-level members
+		case 1:
+			r.leaves["ta1"] = val.String("tv")
+		case 2:
+			r.ensureKid(st, "tb1").leaves["y"] = val.String("ty")
+		case 3:
+			r.leaves["tsh"] = val.String("sh")
 		}
 	case 2: // lists: nested, compound key
 		l := r.ensureList(st, "l")
@@ -316,6 +326,45 @@ func H_C04_numbers_through_reader(s any) {
 		ok, same := c04Wide(m, "u64", val.UInt64(x), float64(x))
 		small := x <= 1<<53
 		vpAssertK("C04-int64-beyond-2-53", !small, ok && same, "uint64 survives the JSON number (float64) step")
+	}
+	vpCover("reached")
+}
+
+// every string of up to 3 bytes of valid UTF-8 (control characters, quotes, U+2028/U+2029 ...) comes back unchanged
+// through writer + reader, as a leaf and as a leaf-list element, whatever the writer configuration
+//
+//vp:setup S_c04
+func H_C04_string_roundtrip_utf8(s any) {
+	m := s.(*meta.Module)
+	t := vpString(3)
+	vpAssume(utf8.ValidString(t))
+	src := newMemStore()
+	src.quiet = true
+	c := src.root.ensureKid(src, "c")
+	asList := vpBool()
+	if asList {
+		c.leaves["sl"] = val.StringList([]string{t, "z"})
+	} else {
+		c.leaves["s"] = val.String(t)
+	}
+	var buf bytes.Buffer
+	wtr := &JSONWtr{Out: &buf, Pretty: vpBool()}
+	vpAssert(node.NewBrowser(m, src.node()).Root().UpsertInto(wtr.Node()) == nil, "write succeeds")
+	root, ok := jparse(buf.String())
+	vpAssert(ok && root.kind == 'o', "well-formed JSON object")
+	rdr, err := ReadJSONValues(jvToGo(root).(map[string]interface{}))
+	vpAssert(err == nil, "reader accepts the decoded document")
+	dst := newMemStore()
+	dst.quiet = true
+	vpAssert(node.NewBrowser(m, dst.node()).Root().UpsertFrom(rdr) == nil, "reading the library's own JSON back succeeds")
+	dc := dst.root.kids["c"]
+	vpAssert(dc != nil, "container is back")
+	if asList {
+		got, isList := dc.leaves["sl"].(val.StringList)
+		vpAssert(isList && len(got) == 2 && got[0] == t && got[1] == "z", "string leaf-list element comes back unchanged")
+	} else {
+		got, isStr := dc.leaves["s"].(val.String)
+		vpAssert(isStr && string(got) == t, "string leaf comes back unchanged")
 	}
 	vpCover("reached")
 }
